@@ -98,6 +98,7 @@ pub fn scenario(idx: usize, seed: u64, rpcs: usize) -> ScenarioResult {
         tokio::time::sleep(Duration::from_millis(200)).await;
         let nodes = [&a, &b];
         let mut problems: Vec<String> = Vec::new();
+        let mut awaited_modes: std::collections::BTreeMap<&'static str, u64> = Default::default();
         let mut cases: Vec<serde_json::Value> = Vec::new();
         let mut n_succ = 0u64;
         let mut n_srv = 0u64;
@@ -164,14 +165,15 @@ pub fn scenario(idx: usize, seed: u64, rpcs: usize) -> ScenarioResult {
             if with_layer[from] {
                 layer_expected[from] += 1;
             }
-            let fut = async {
+            let net = nodes[from].net.clone();
+            let mut fut: futures::future::BoxFuture<'static, anyhow::Result<anemo::Response<bytes::Bytes>>> = Box::pin(async move {
                 match via {
-                    0 => nodes[from].net.rpc(peer, req).await,
-                    1 => match nodes[from].net.peer(peer) {
+                    0 => net.rpc(peer, req).await,
+                    1 => match net.peer(peer) {
                         Some(mut p) => p.rpc(req).await,
                         None => Err(anyhow::anyhow!("not connected")),
                     },
-                    _ => match nodes[from].net.peer(peer) {
+                    _ => match net.peer(peer) {
                         Some(mut p) => match p.ready().await {
                             Ok(svc) => svc.call(req).await,
                             Err(e) => Err(e),
@@ -179,13 +181,33 @@ pub fn scenario(idx: usize, seed: u64, rpcs: usize) -> ScenarioResult {
                         None => Err(anyhow::anyhow!("not connected")),
                     },
                 }
+            });
+            // how the caller drives the call: awaited in place; polled once here and then finished
+            // by another task; raced against a short timer first and then handed to another task.
+            // The deadline must fire whichever task holds the future when it expires.
+            let awaited = rng.gen_range(0..4usize).min(2);
+            let long = Duration::from_secs(200);
+            let res = match awaited {
+                0 => tokio::time::timeout(long, fut).await,
+                1 => match futures::poll!(&mut fut) {
+                    std::task::Poll::Ready(r) => Ok(r),
+                    std::task::Poll::Pending => tokio::time::timeout(long, tokio::spawn(fut)).await.map(|j| j.unwrap_or_else(|e| Err(anyhow::anyhow!("task failed: {e}")))),
+                },
+                _ => {
+                    let first = Duration::from_micros(rng.gen_range(0..30_000));
+                    tokio::select! {
+                        biased;
+                        r = &mut fut => Ok(r),
+                        _ = tokio::time::sleep(first) => tokio::time::timeout(long, tokio::spawn(fut)).await.map(|j| j.unwrap_or_else(|e| Err(anyhow::anyhow!("task failed: {e}")))),
+                    }
+                }
             };
-            let res = tokio::time::timeout(Duration::from_secs(200), fut).await;
+            *awaited_modes.entry(["in-place", "polled-once-then-spawned", "select-then-spawned"][awaited]).or_default() += 1;
             let t1 = w.now();
             let res = match res {
                 Ok(r) => r,
                 Err(_) => {
-                    problems.push(format!("rpc did not return within 200 s (expected {expect:?}); outbound default {o:?} us, inbound default {i_def:?} us, header {hdr:?}, handler duration {d:?} us, via {via}"));
+                    problems.push(format!("rpc did not return within 200 s (expected {expect:?}); outbound default {o:?} us, inbound default {i_def:?} us, header {hdr:?}, handler duration {d:?} us, via {via}, awaited {awaited}"));
                     break;
                 }
             };
@@ -201,8 +223,9 @@ pub fn scenario(idx: usize, seed: u64, rpcs: usize) -> ScenarioResult {
             };
             let elapsed = t1 - t0;
             let via_name = ["Network::rpc", "Peer::rpc", "Peer as tower::Service"][via];
+            let awaited_name = ["in-place", "polled-once-then-spawned", "select-then-spawned"][awaited];
             let case = json!({
-                "dir": format!("{from}->{to}"), "via": via_name,
+                "dir": format!("{from}->{to}"), "via": via_name, "awaited": awaited_name,
                 "outbound_default_us": o, "inbound_default_us": i_def, "header": hdr.as_ref().map(|s| s.chars().take(24).collect::<String>()),
                 "handler_duration_us": d, "expect": format!("{expect:?}"),
                 "returned_after_us": elapsed,
@@ -316,6 +339,9 @@ pub fn scenario(idx: usize, seed: u64, rpcs: usize) -> ScenarioResult {
             .count("expect_server_timeout", n_srv)
             .count("expect_caller_timeout", n_cli)
             .count("unparsable_headers", n_unparsable)
+            .count("awaited_in_place", awaited_modes.get("in-place").copied().unwrap_or(0))
+            .count("awaited_polled_once_then_spawned", awaited_modes.get("polled-once-then-spawned").copied().unwrap_or(0))
+            .count("awaited_select_then_spawned", awaited_modes.get("select-then-spawned").copied().unwrap_or(0))
     })
 }
 
@@ -338,7 +364,7 @@ pub fn run(ctx: &Ctx) -> i32 {
         tier,
         seed: ctx.seed,
         level: "exploration",
-        rule: "scenario = two real Networks (fixed 5 ms one-way latency, loss-free) with seeded outbound/inbound defaults in {None,0,60ms..60s}, optional user outbound layer; 25-40 sequential RPCs in both directions through Network::rpc / Peer::rpc / Peer as tower Service with a seeded timeout header (absent, 0, grid values, u64::MAX, overflowing, negative, non-numeric, padded, 100 digits, non-ASCII) and scripted handler duration (0, grid, never); combinations whose three deadlines are closer than 50 ms are not judged; reference model C=min?(O,h), S=min?(I,h) decides outcome class, exact virtual-time latency (+-3 ms) and handler lifetime; distinct by (which defaults are set, outcome mix)".into(),
+        rule: "scenario = two real Networks (fixed 5 ms one-way latency, loss-free) with seeded outbound/inbound defaults in {None,0,60ms..60s}, optional user outbound layer; 25-40 sequential RPCs in both directions through Network::rpc / Peer::rpc / Peer as tower Service, awaited in place / polled once and then finished by another task / raced in a select! and then handed to another task, with a seeded timeout header (absent, 0, grid values, u64::MAX, overflowing, negative, non-numeric, padded, 100 digits, non-ASCII) and scripted handler duration (0, grid, never); combinations whose three deadlines are closer than 50 ms are not judged; reference model C=min?(O,h), S=min?(I,h) decides outcome class, exact virtual-time latency (+-3 ms) and handler lifetime; distinct by (which defaults are set, outcome mix)".into(),
         assumptions: vec!["sub-millisecond accuracy is not judged (timer wheel granularity)".into()],
         summary,
         extra: Default::default(),
